@@ -315,6 +315,72 @@ def correspondence(ctx: Ctx):
                    "impl": _guard(lambda cgm=cgm, img=img, S=S, m=m, lam=lam: _frac_answer(cgm.B_op(img, S, m, lam).reshape(-1).tolist())),
                    "nontrivial": p.n >= 2, "bucket": f"bop/{p.mode}/mask={p.mask_kind}"}
 
+    # ---- phase 3: call histories on ONE persistent instance of each block (exact).  The model is a pure function of the
+    #      current arguments, so every call of the history must answer like a first call.  The k-space / mask / map tensor
+    #      OBJECTS are kept across the calls: re-used untouched with another mask or scaling, refilled in place, replaced
+    #      by an equal copy.  (`core.correspond` runs the thunks in this order.)
+    for i in range(ctx.budget(30, 300)):
+        p = Prob(rng)
+        fop, bop = p.ops()
+        ll, cgm = MRILogLikelihood(fop, bop), ConjGrad(fop, bop)
+        st = {"x": _gauss(rng, (p.n,), -4, 4, 0.1), "y": _gauss(rng, (p.c, p.n), -4, 4, 0.1), "mask": list(p.mask), "s": (1, 1)}
+        T_ = {"ksp": p.kspace(st["y"]), "S": p.sens(), "m": p.mask_t()}
+        m_shape, m_dtype = tuple(T_["m"].shape), T_["m"].dtype
+        for step in range(rng.choice([3, 4, 5])):
+            how = "first" if step == 0 else rng.choice(["same-y/new-mask", "same-y/new-mask", "same-y/new-scaling", "y-refilled-in-place",
+                                                        "equal-y/new-mask", "mask-refilled-in-place", "same-everything/new-x",
+                                                        "same-y/empty-mask", "same-y/full-mask"])
+            todo = []                                            # mutations of the persistent tensors, done when the thunk runs
+            if how in ("same-y/new-mask", "equal-y/new-mask", "mask-refilled-in-place", "same-y/empty-mask", "same-y/full-mask"):
+                st["mask"] = ([0] * len(st["mask"]) if how.endswith("empty-mask") else [1] * len(st["mask"]) if how.endswith("full-mask")
+                              else [rng.randrange(2) for _ in st["mask"]])
+                newm = torch.tensor(st["mask"]).reshape(m_shape).to(m_dtype)
+                if how == "mask-refilled-in-place":
+                    todo.append(lambda T_=T_, newm=newm: T_["m"].copy_(newm))
+                else:
+                    todo.append(lambda T_=T_, newm=newm: T_.__setitem__("m", newm))
+                if how == "equal-y/new-mask":
+                    todo.append(lambda T_=T_: T_.__setitem__("ksp", T_["ksp"].clone()))
+            elif how == "same-y/new-scaling":
+                st["s"] = _dyadic(rng)
+            elif how == "y-refilled-in-place":
+                st["y"] = _gauss(rng, (p.c, p.n), -4, 4, 0.1)
+                newy = p.kspace(st["y"])
+                todo.append(lambda T_=T_, newy=newy: T_["ksp"].copy_(newy))
+            elif how == "same-everything/new-x":
+                st["x"] = _gauss(rng, (p.n,), -4, 4, 0.1)
+            which = rng.choice(["loglik", "loglik", "loglik", "astar", "astara", "bop"])
+            groups = [_cints(p.F), [p.fden], _cints(p.B), [p.bden], _cints(p.S), list(st["mask"])]
+            x, y, (sn, sd) = st["x"], st["y"], st["s"]
+            if which == "loglik":
+                img = p.image(x).permute(0, 3, 1, 2).contiguous()
+                xg = [int(v) for v in img.reshape(-1).tolist()]
+                scaling = None if (sn, sd) == (1, 1) and rng.random() < 0.5 else torch.tensor([sn / sd], dtype=DT)
+                ln_ = line("loglik", [p.n, p.c, p.c, 2], *groups, xg, _cints(y), [sn, sd])
+                call = lambda ll=ll, img=img, T_=T_, scaling=scaling: ll(img, T_["ksp"], T_["S"], T_["m"], scaling)
+            elif which == "astar":
+                ln_ = line("astar", [p.n, p.c], *groups, _cints(y))
+                call = lambda cgm=cgm, T_=T_: cgm._A_star_op(T_["ksp"], T_["S"], T_["m"])
+            elif which == "astara":
+                img = p.image(x)
+                ln_ = line("astara", [p.n, p.c, 2], *groups, _cints(x))
+                call = lambda cgm=cgm, img=img, T_=T_: cgm._A_star_A_op(img, T_["S"], T_["m"])
+            else:
+                img = p.image(x)
+                lam_n, lam_d = _dyadic(rng)
+                lam = torch.tensor([lam_n / lam_d], dtype=DT)
+                ln_ = line("bop", [p.n, p.c], *groups, _cints(x), [lam_n, lam_d])
+                call = lambda cgm=cgm, img=img, T_=T_, lam=lam: cgm.B_op(img, T_["S"], T_["m"], lam)
+
+            def impl(todo=todo, call=call):
+                for f in todo:
+                    f()
+                with torch.no_grad():
+                    return _frac_answer(call().reshape(-1).tolist())
+
+            yield {"line": ln_, "impl": _guard(impl), "key": ("hist", i, step, ln_), "nontrivial": p.n >= 2 and step >= 1,
+                   "bucket": f"history/{which}/step={min(step, 3)}{'+' if step > 3 else ''}/{how}"}
+
     # ---- phase 2: the same physics inside the unrolled models / engines (exact, dense operators injected)
     import types as _types
 
@@ -954,6 +1020,40 @@ def oracle(ctx: Ctx, deep: bool = False):
                   bucket=f"oracle/cgbatch/{prm['update']}/B={prm['shape'][0]}/stop_pass={info.get('pass', '?')}")
         for key, what in fails:
             yield Violation(key, what, {**prm, "observed": info})
+    # ---- phase 3: call histories on persistent instances of the two blocks (same k-space tensor object with other masks /
+    #      scalings / refilled in place / re-allocated, equal content in another object, two alternating problems)
+    from props import c19_hist
+
+    ll_scripts = list(c19_hist.LOGLIK_SCRIPTS) + [c19_hist.random_script(rng, "loglik") for _ in range(60 if big else 5)]
+    for i, script in enumerate(ll_scripts):
+        for dt in ("float32", "float64"):
+            h_, w_ = rng.choice([(2, 3), (4, 4), (5, 6), (3, 8)])
+            prm = {"op": "hist-loglik", "shape": [rng.choice([1, 2, 3]), rng.choice([1, 2, 3]), h_, w_], "seed": rng.randrange(2 ** 31),
+                   "centered": rng.random() < 0.5, "normalized": rng.random() < 0.75, "dtype": dt, "coilmask": rng.random() < 0.25,
+                   "script": script}
+            try:
+                fails, info = c19_hist.loglik_history(prm)
+            except Exception as e:  # noqa: BLE001
+                fails, info = [("loglik-raises", f"MRILogLikelihood raises {err_name(e)} inside a call history: {e}"[:300])], {}
+            ctx.count(("hll", prm["seed"], dt, i), True, sample={"op": "oracle/history/loglik", "script": script, **info},
+                      bucket=f"oracle/history/loglik/{dt}/{'fixed' if i < len(c19_hist.LOGLIK_SCRIPTS) else 'random'}")
+            for key, what in fails:
+                yield Violation(key, what, {**prm, "observed": info})
+    cg_scripts = list(c19_hist.CG_SCRIPTS) + [c19_hist.random_script(rng, "cg", 4) for _ in range(30 if big else 2)]
+    for i, script in enumerate(cg_scripts):
+        dt = "float32" if i % 2 == 0 else "float64"
+        h_, w_ = rng.choice([(2, 2), (2, 3), (3, 4)])
+        prm = {"op": "hist-cg", "shape": [rng.choice([1, 2]), rng.choice([1, 2, 3]), h_, w_], "seed": rng.randrange(2 ** 31),
+               "centered": rng.random() < 0.5, "dtype": dt, "update": "FR" if (i // 2) % 2 == 0 else "PRP", "script": script}
+        try:
+            fails, info = c19_hist.cg_history(prm)
+        except Exception as e:  # noqa: BLE001
+            fails, info = [("cg-raises", f"ConjGrad raises {err_name(e)} inside a call history: {e}"[:300])], {}
+        ctx.count(("hcg", prm["seed"], dt, i), True, sample={"op": "oracle/history/cg", "script": script, **info},
+                  bucket=f"oracle/history/cg/{dt}/{prm['update']}")
+        for key, what in fails:
+            yield Violation(key, what, {**prm, "observed": info})
+
     # ---- phase 2: every re-implementation of the physics inside the unrolled models / engines
     from props import c19_sites
 
@@ -973,6 +1073,28 @@ def oracle(ctx: Ctx, deep: bool = False):
             ctx.count(("site", name, seed), mk != "empty", bucket=f"oracle/site/{name}/mask={mk}")
             for key, what in fails:
                 yield Violation(key, what, prm)
+    # ---- phase 3: the same sites on PERSISTENT module instances over a call history (argument tensors refilled in place,
+    #      re-masked, cloned, re-used): every data-consistency evaluation of every call against autograd
+    hist_counts: dict[str, int] = {}
+    for r in range(len(c19_sites.HISTORY_SCRIPTS) * (4 if big else 1)):
+        for j, (name, _) in enumerate(c19_sites.SITE_CHECKS):
+            script = c19_sites.HISTORY_SCRIPTS[(r + j + ctx.seed) % len(c19_sites.HISTORY_SCRIPTS)] if not big else \
+                c19_sites.HISTORY_SCRIPTS[r % len(c19_sites.HISTORY_SCRIPTS)]
+            if not big and r > 0:
+                break
+            seed = rng.randrange(2 ** 31)
+            centered = rng.random() < 0.5
+            kinds = [rng.choice(["random", "random", "random", "full", "empty"]) for _ in script]
+            prm = {"op": "site-hist", "site": name, "seed": seed, "centered": centered, "script": script, "mask_kinds": kinds}
+            try:
+                n, fails, _k = c19_sites.run_site_history(name, seed, centered, script, kinds)
+            except Exception as e:  # noqa: BLE001
+                n, fails = 0, [(f"site-{name}-raises", f"{name} (call history {script}): {err_name(e)}: {e}"[:300])]
+            hist_counts[name] = hist_counts.get(name, 0) + n
+            ctx.count(("site-hist", name, seed), True, bucket=f"oracle/history/site/{name}")
+            for key, what in fails:
+                yield Violation(key, what, prm)
+    ctx.notes.append({"site_relations_checked_over_call_histories_on_persistent_instances": hist_counts})
     ctx.notes.append({"site_table": [dict(zip(("site", "file", "model_form", "relation_to_data_fidelity", "bridge_lemmas", "oracle"), row))
                                      for row in c19_sites.SITE_TABLE],
                       "site_relations_checked_on_real_modules": counts})
@@ -998,6 +1120,15 @@ def replay(rep: dict) -> bool:
             from props import c19_sites
             fn = dict(c19_sites.SITE_CHECKS)[rep["site"]]
             return bool(fn(rep["seed"], rep["centered"], rep["mask"])[1])
+        if rep.get("op") == "hist-loglik":
+            from props import c19_hist
+            return bool(c19_hist.loglik_history(prm)[0])
+        if rep.get("op") == "hist-cg":
+            from props import c19_hist
+            return bool(c19_hist.cg_history(prm)[0])
+        if rep.get("op") == "site-hist":
+            from props import c19_sites
+            return bool(c19_sites.run_site_history(rep["site"], rep["seed"], rep["centered"], rep["script"], rep.get("mask_kinds"))[1])
         if rep.get("op") == "cg3d":
             return any(isinstance(v, Violation) for v in _three_d_notes())
     except Exception:  # noqa: BLE001
